@@ -96,10 +96,10 @@ CLAIMED = {
    technique="property-based testing of a state invariant over generated documents and event histories"),
  "C02": dict(
    level="exploration",
-   text="Differential testing against an independent reference interpreter written from the W3C pseudo-code over my own AST: selected transition set per microstep, exit order, body order, entry order, done events, configuration after every microstep and history values at every idle point must be identical; every case is run twice (fresh parse and session) and must reproduce itself exactly.",
+   text="Differential testing against an independent reference interpreter written from the W3C pseudo-code over my own AST: selected transition set per microstep, exit order, body order, entry order, done events, configuration after every microstep and history values at every idle point must be identical; every case is run twice (fresh parse and session) and must reproduce itself exactly. Second phase: for small documents (<= 7 states) the reference model explores the complete reachable graph over (configuration, history value, data) breadth first (<= 40 states, depth <= 7) and every edge (state x event) is replayed on the real interpreter.",
    design="6/C02",
    note="Trusted: harness/src/refmodel.rs (my reading of appendix D), doc generator only produces conformant documents. Documents <= 14 states, depth <= 4.",
-   technique="property-based differential testing vs. reference interpreter + determinism (run-twice) relation"),
+   technique="property-based differential testing vs. reference interpreter + determinism (run-twice) relation + model-based transition tours of small documents"),
  "C03": dict(
    level="exploration",
    text="Differential testing against the reference interpreter on a queue-heavy profile (raise, #_internal send, self-send, guarded eventless transitions, done handlers) with events pre-queued or fed at idle, plus reference-free stream invariants (external events in send order exactly once, idle point exactly before each external dequeue, unmatched event changes nothing) and the metamorphic relation pre-queued == fed-at-idle when no self-send exists.",
